@@ -58,6 +58,24 @@ def _hex_idiom(t):
     return None
 
 
+def list_elements(t):
+    """Elements of a list/tuple written as a literal, possibly followed by append / extend-with-a-literal updates."""
+    if t[0] in ("tuple", "list"):
+        return None if any(x[0] == "star" for x in t[1]) else list(t[1])
+    if t[0] == "mut":
+        base = list_elements(t[1])
+        if base is None:
+            return None
+        if t[2] == "append" and len(t[3]) == 1:
+            return base + [t[3][0]]
+        if t[2] == "extend" and len(t[3]) == 1:
+            more = list_elements(t[3][0])
+            return None if more is None else base + more
+        if t[2] == "insert" and len(t[3]) == 2 and t[3][0] == ("const", 0):
+            return [t[3][1]] + base
+    return None
+
+
 def flatten(t):
     return _merge(_flat(t))
 
@@ -121,12 +139,13 @@ def _flat(t):
             except ValueError:
                 return [("val", t)]
             return out
-        if f[0] == "attr" and f[2] == "join" and f[1] == ("const", "") and len(args) == 1 and args[0][0] in ("tuple", "list") \
-                and not any(x[0] == "star" for x in args[0][1]):
-            out = []
-            for x in args[0][1]:
-                out.extend(_flat(x))
-            return out
+        if f[0] == "attr" and f[2] == "join" and f[1] == ("const", "") and len(args) == 1:
+            elts = list_elements(args[0])
+            if elts is not None:
+                out = []
+                for x in elts:
+                    out.extend(_flat(x))
+                return out
         if f == ("builtin", "str") and len(args) == 1 and not kwargs:
             return _flat_val(args[0])
         if f == ("builtin", "format") and len(args) == 2 and args[1][0] == "const":
